@@ -118,11 +118,11 @@ func calmEval(r *rec) string {
 	op.N = 0 // evaluated alone means: on a plain heap object
 	rt.CalmReset()
 	if libSpawns {
-		if why := rt.RunCalm(func() { callOp(a, op, obj, nil, &out, nil) }); why != "" {
+		if why := rt.RunCalm(func() { callOp(a, op, obj, nil, &out, nil, nil) }); why != "" {
 			out.res = "abort:" + why
 		}
 	} else {
-		callOp(a, op, obj, nil, &out, nil)
+		callOp(a, op, obj, nil, &out, nil, nil)
 	}
 	after := ""
 	if obj != nil {
